@@ -114,6 +114,10 @@ func (r *RouteParam) Write(writer io.Writer) (int, error) {
 		return n, err
 	}
 	for _, param := range r.rrParam {
+		if m, err := io.WriteString(writer, ";"); err != nil {
+			return n + m, err
+		}
+		n++
 		m, err := param.Write(writer)
 		n += m
 		if err != nil {
